@@ -83,6 +83,14 @@ def Admissible (w : World) : Op → Prop
   | .inst n _ _ => w.findInst n = none
   | _ => True
 
+/-- keys of an association list are pairwise different (a Python dict) -/
+def KeysNodup {α : Type} (l : List (Name × α)) : Prop := (l.map (·.1)).Nodup
+
+/-- class bodies are Python dicts: the names written in one class body are pairwise different -/
+def WellFormed : Op → Prop
+  | .define d => KeysNodup d.decls
+  | _ => True
+
 /-- every operation of the list is admissible when its turn comes -/
 def AdmissibleRun (T : Tables) : World → List Op → Prop
   | _, [] => True
@@ -104,6 +112,59 @@ def Consistent (env : Name → Option ClassDecl) (w : World) : Op → Prop
 def ConsistentRun (T : Tables) (env : Name → Option ClassDecl) : World → List Op → Prop
   | _, [] => True
   | w, op :: ops => Consistent env w op ∧ ConsistentRun T env (step T w op) ops
+
+/-! ### what a class shows, as a function of the class bodies (no heap, no definition order) -/
+
+/-- what can be seen of a class: the trees of the datatype objects declared in its body, the views of the
+Parameter/Command objects of its `__dict__`, and the views of `cls.accessibles` -/
+structure ClassViews where
+  declTrees : List (Name × DTree)
+  accViews : List (Name × AccView)
+  accessibles : List (Name × Option AccView)
+
+/-- the declared datatype objects of a class body (value-level mirror of layout pass 1) -/
+def declTreesOf (cv : ClassV) : List (Name × DTree) :=
+  cv.dict.filterMap (fun ke => match ke.2 with
+    | .acc a => (a.declTree cv.decl.name).map (fun t => (ke.1, t))
+    | _ => none)
+
+/-- the tree of the datatype object a slot stands for: a copy carries its own tree, a declared object is looked up
+under its name in the class that declared it (`look`: what the classes along the MRO show) -/
+def slotTreeV (look : Name → Option ClassViews) (self : Name) (own : List (Name × DTree)) : DtSlot → Option DTree
+  | .set (.copy _ _) t => some t
+  | .set (.decl c n) _ => if c == self then aget? own n else (look c).bind (fun V => aget? V.declTrees n)
+  | _ => none
+
+/-- value-level mirror of layout pass 2 -/
+def accViewsOf (look : Name → Option ClassViews) (cv : ClassV) (own : List (Name × DTree)) : List (Name × AccView) :=
+  cv.dict.filterMap (fun ke => match ke.2 with
+    | .acc a => some (ke.1, ⟨a.isCmd, a.props, slotTreeV look cv.decl.name own a.dt⟩)
+    | _ => none)
+
+/-- value-level mirror of `accessibleRef`: the view of the object lying in the `__dict__` of the owner -/
+def accessibleViewV (look : Name → Option ClassViews) (self : Name) (own : List (Name × AccView)) (ns : Name × SlotV) :
+    Option (Name × Option AccView) :=
+  (if ns.2.owner == self then aget? own ns.1
+   else (look ns.2.owner).bind (fun V => aget? V.accViews ns.1)).map (fun v => (ns.1, some v))
+
+def dictAccsV (own : List (Name × AccView)) (dict : List (Name × EntryV)) : List (Name × Option AccView) :=
+  dict.filterMap (fun ke => match ke.2 with | .acc _ => (aget? own ke.1).map (fun v => (ke.1, some v)) | _ => none)
+
+def accessiblesViewsOf (look : Name → Option ClassViews) (cv : ClassV) (own : List (Name × AccView)) :
+    List (Name × Option AccView) :=
+  if cv.decl.isModule then cv.accessibles.filterMap (accessibleViewV look cv.decl.name own) else dictAccsV own cv.dict
+
+/-- what a class with value `cv` shows, given what the classes along its MRO show -/
+def pureViews (look : Name → Option ClassViews) (cv : ClassV) : ClassViews :=
+  ⟨declTreesOf cv, accViewsOf look cv (declTreesOf cv),
+   accessiblesViewsOf look cv (accViewsOf look cv (declTreesOf cv))⟩
+
+/-- what a class shows as a function of the *declarations* only (`env`), like `pureOf` -/
+def viewsOf (T : Tables) (env : Name → Option ClassDecl) : Nat → Name → Option ClassViews
+  | 0, _ => none
+  | f + 1, n => (env n).map (fun d =>
+      pureViews (fun c => if d.mro.tail.contains c then viewsOf T env f c else none)
+        (pureDefine T (d.mro.tail.filterMap (pureOf T env f)) d))
 
 /-- validation behaviour of the accessibles of an owner, for any validation function of datatypes -/
 def validateH {V O : Type} (val : DTree → V → O) (w : World) (o : Owner) (v : V) : List (Name × Option O) :=
